@@ -275,7 +275,7 @@ void c13_case(Tape& t, Ctx& ctx) {
       int k = t.range(0, nc - 1);
       double vD = sp.getTrajectory().evaluate(tq, k)(d), v1 = s1.getTrajectory().evaluate(tq, k)(0);
       int sg = 0; const auto& bk = sp.getTrajectory().getBreakpoints(); while (sg + 1 < N && tq >= bk[sg + 1]) ++sg;
-      ld sc = seg_abs_scale(C1, sg, nc, 0, (ld)(tq - bk[sg]), k) + Md / RefSpline::ipow(c.T[sg], k);
+      ld sc = seg_abs_scale(C1, sg, nc, 0, (ld)(tq - bk[sg]), k) + std::max(Md, c.data_mag(d, S)) / RefSpline::ipow(c.T[sg], k);
       VCHECK(ctx, fabsl((ld)vD - (ld)v1) <= tau_fwd(S) * sc, "evaluation-vs-1d", who << ": evaluate(t=" << g17(tq) << ", k=" << k << ") coordinate " << d << " = " << g17(vD) << " vs one-dimensional spline " << g17(v1));
     }
     // propagated gradients (scalar run with zero incoming time gradient)
@@ -562,7 +562,7 @@ void c14_case(Tape& t, Ctx& ctx) {
             auto vr = b.getTrajectory()[j].evaluate(u, m); auto vo = sp.getTrajectory()[i].evaluate(uo, m);
             double sgn = (m & 1) ? -1.0 : 1.0;
             for (int d = 0; d < D; ++d) {
-              ld sc = seg_abs_scale(C, i, nc, d, (ld)c.T[i], m) + (ld)c.M / RefSpline::ipow(c.T[i], m);
+              ld sc = seg_abs_scale(C, i, nc, d, (ld)c.T[i], m) + std::max((ld)c.M, c.data_mag(d, S)) / RefSpline::ipow(c.T[i], m);
               VCHECK(ctx, fabsl((ld)vr(d) - sgn * (ld)vo(d)) <= tr * sc, "reversal-evaluation",
                      who << ": derivative " << m << " of the reversed spline on segment " << j << " at u=" << g17(u) << " coordinate " << d << " is " << g17(vr(d)) << " but (-1)^m times the original at the mirrored time is " << g17(sgn * vo(d)) << " (durations " << c.dur_shape << " ratio " << g6(c.ratio) << ")");
             }
